@@ -30,6 +30,7 @@ type Ledger struct {
 	ReadFail          map[atree.SlabID]bool
 	ReadFailHits      int // number of reads that failed because of ReadFail
 	ReadFailFound     bool // the found flag a failing read returns next to its error (BaseStorage.Retrieve returns three values)
+	LastReadFail      atree.SlabID // the last register whose read failed because of ReadFail
 	AllocFail         bool // GenerateSlabID fails (and allocates nothing)
 	Jitter            bool
 	n                 int
@@ -73,6 +74,7 @@ func (l *Ledger) Store(id atree.SlabID, data []byte) error {
 		return ErrInjected
 	}
 	l.Log = append(l.Log, Call{'S', id, append([]byte(nil), data...), true})
+	CheckRegister(id, data) // register-level oracles on what the commit writes (regcheck.go)
 	l.Seg[id] = append([]byte(nil), data...)
 	l.stored += len(data)
 	return nil
@@ -95,6 +97,7 @@ func (l *Ledger) Retrieve(id atree.SlabID) ([]byte, bool, error) {
 	l.jitter()
 	if l.ReadFail[id] {
 		l.ReadFailHits++
+		l.LastReadFail = id
 		return nil, l.ReadFailFound, ErrInjected
 	}
 	d, ok := l.Seg[id]
